@@ -50,7 +50,9 @@ func c05DeliverUntilSettled(c *Check, id string, r *GCRoles) {
 	}
 	for _, si := range Selects(D) {
 		for _, cs := range si.Cases {
-			if ok, _ := isCancelCase(cs, r.SClosing); ok && cs.Edge != nil {
+			// only the closing signals count: a context's Done() fires before the subscription is marked closing, and a
+			// sender that gives up then lets the next queued message out while this one is unsettled
+			if ok, what := isCancelCase(cs, r.SClosing, r.Closing); ok && what != "ctx.Done()" && cs.Edge != nil {
 				allowed = append(allowed, *cs.Edge)
 			}
 		}
